@@ -230,7 +230,11 @@ def check_case(kind, script, acc, cfg, only=None):
             else:
                 acc.count("cmd_unavailable:%s:%s" % (cmd, kind))
                 continue
-            before = observe(start)
+            try:
+                before = observe(start)
+            except Exception as e:  # noqa: BLE001 - an earlier fault-free command left an unreadable tree
+                note_unreadable(acc, kind, script, cmd, "start", e)
+                continue
             root, exc, log, fired, counts, applies = run_once(cmd, start, env, work)
             if exc is not None:
                 # the fault-free command itself fails for this tree: not a subject of fault
@@ -247,7 +251,11 @@ def check_case(kind, script, acc, cfg, only=None):
                          "exception": scrub("%s: %s" % (type(exc).__name__, str(exc)[:200]), work),
                          "vs_before": diff_state(st, before), "left": st[2]})
                 continue
-            after = observe(root)
+            try:
+                after = observe(root)
+            except Exception as e:  # noqa: BLE001
+                note_unreadable(acc, kind, script, cmd, "after", e)
+                continue
             if after[2]:
                 acc.violation("faultfree:transform-dirs-left:%s" % kind,
                               {"script": list(script), "command": cmd, "left": after[2]})
@@ -288,6 +296,14 @@ def check_case(kind, script, acc, cfg, only=None):
 
 def base(p):
     return os.path.basename(p) if isinstance(p, str) else p
+
+
+def note_unreadable(acc, kind, script, cmd, when, e):
+    """A command that succeeded WITHOUT any injected fault left a tree that cannot be read back.
+    That is outside this property (no file-system failure happened); it is recorded as an outcome
+    and the command is skipped as a subject of fault enumeration."""
+    acc.count("faultfree_tree_unreadable:%s:%s:%s" % (cmd, kind, type(e).__name__))
+    acc.outcomes.add(("faultfree-tree-unreadable", when, cmd, kind, type(e).__name__, "+".join(script)))
 
 
 def rel(p, root):
